@@ -40,6 +40,8 @@ LCALLS = [(r'^tune\|', 'nv_tune({&1})!'), (r'^move\|', '{0}'), (r'^fit\|', 'line
           (r'^ctor\|nano::tensor_t<nano::tensor_carray_storage_t, long, 1>\|void \(const tensor_t<nano::tensor_vector_storage_t, long, 1', '{0}'),
           (r'^ctor\|(nano::)?(linear::)?result_t\|void \(nano::tensor1d_t, nano::tensor2d_t', 'nv_lresult_make({0}, {1}, {&2})'),
           (r'^ctor\|nano::tensor_t<nano::tensor_vector_storage_t, double, [12]>\|void \(const tensor_t<nano::tensor_carray_storage_t, double, [12]UL> &\)', '{0}'),
+          (r'^ctor\|nano::tensor_t<nano::tensor_vector_storage_t, double, 1>\|void \((int|long)\)', 'nv_lt_make1({0})'),
+          (r'^operator\(\)\|.*tensor_vector_storage_t, double, 1', '(*nv_lt_at({&0}, {1}))'),
           (r'^arange\|', 'nv_arange({0}, {1})'), (r'^cat_dims\|', '(struct nv_dims4){ {0} }'),
           (r'^ctor\|nano::tensor_t<nano::tensor_vector_storage_t, double, 4>\|', 'nv_lt_make4({0})'),
           (r'^ctor\|nano::tensor_t<nano::tensor_vector_storage_t, double, 2>\|void \((int|long), (int|long)\)', 'nv_lt_make2({0}, {1})'),
@@ -63,6 +65,7 @@ LMEMBERS = [(r'^fit_dataset\|', 'nv_learner_fit_dataset({self})'),
             (r'^tensor\|nano::tensor_t<nano::tensor_vector_storage_t, double, 2', 'nv_lt_row({self}, {0})'),
             (r'^error\|nano::loss_t', 'nv_loss_error({0}, {1}, {2})'), (r'^value\|nano::loss_t', 'nv_loss_value({0}, {1}, {2})'),
             (r'^size\|.*(indices_t|tensor_vector_storage_t, long, 1|tensor_base_t<long, 1)', 'nv_indices_size'),
+            (r'^(fcalls|gcalls)\|nano::solver_state_t', 'nv_lstate_calls'), (r'^status\|nano::solver_state_t', 'nv_lstate_status'),
             (r'^bias\|', 'nv_function_bias'), (r'^weights\|', 'nv_function_weights')]
 
 
@@ -128,6 +131,7 @@ def inner_fns():
     kw = kw_()
     return dict(inner=Fn('linear_fit_inner', L, 'fit', flt='fit', select=NPARAMS(8), ret='struct nv_lresult', **kw),
                 evaluate=Fn('linear_evaluate', 'src/linear/util.cpp', 'evaluate', flt='linear::evaluate', **kw),
+                rctor=Fn('linear_result_ctor', 'src/linear/result.cpp', 'result_t', flt='linear::result_t::result_t', select=NPARAMS(3), **dict(kw, self_struct='struct nv_lresult')),
                 chunk=Fn('linear_evaluate_chunk', 'src/linear/util.cpp', 'evaluate', flt='linear::evaluate', lambda_index=0, captures=True, **kw))
 
 
@@ -135,7 +139,8 @@ def targets():
     LH = 'specs/C11/linear.h'
     f, g = linear_fns, inner_fns
     EN = [(L, 'nano::scaling_type')]
-    return [Target('linear_fit_inner', lambda: [g()['inner']], LH, enforce='linear_fit_inner', enums=EN),
+    return [Target('linear_result_ctor', lambda: [g()['rctor']], LH, enforce='linear_result_ctor', enums=EN),
+            Target('linear_fit_inner', lambda: [g()['inner'], g()['rctor']], LH, enforce='linear_fit_inner', replace=['linear_result_ctor'], enums=EN),
             Target('linear_evaluate_chunk', lambda: [g()['chunk']], LH, enforce='linear_evaluate_chunk', enums=EN),
             Target('linear_evaluate', lambda: [g()['evaluate'], g()['chunk']], LH, enforce='linear_evaluate', replace=['linear_evaluate_chunk'], enums=EN, loops=1),
             Target('linear_fit_callback', lambda: [f()['callback'], g()['inner'], g()['evaluate']], LH, enforce='linear_fit_callback', replace=['linear_fit_inner', 'linear_evaluate'], enums=EN),
